@@ -645,6 +645,20 @@ theorem discretize_power_sum_one (delays powers : List ℚ) (Ts : ℚ) (hlen : d
     field_simp
   · simp [discretize, accumulate_length]
 
+/-- R12 (order of the taps): the taps of a profile are a collection, not a sequence — listing the
+    same (delay, power) pairs in any other order gives the same discretised profile. -/
+theorem discretize_order_independent (Ts : ℚ) (taps taps' : List (ℚ × ℚ)) (h : taps.Perm taps') :
+    discretize (taps.map (·.1)) (taps.map (·.2)) Ts = discretize (taps'.map (·.1)) (taps'.map (·.2)) Ts := by
+  have h1 : (discretize (taps.map (·.1)) (taps.map (·.2)) Ts).1
+      = (discretize (taps'.map (·.1)) (taps'.map (·.2)) Ts).1 := by
+    simp only [discretize]
+    exact uniqueSorted_perm ((h.map _).map _)
+  refine Prod.ext h1 ?_
+  rw [discretize_merges _ _ Ts (by simp), discretize_merges _ _ Ts (by simp), h1, ((h.map (·.2)).sum_eq)]
+  apply List.map_congr_left
+  intro d _
+  rw [collidingPower_perm Ts h d]
+
 /-- non-vacuity of the discretisation clauses: two taps colliding at delay 2 (1.5 and 2.5 both
     round to 2: ties to even) merge, the result is sorted, unique and sums to one -/
 example : discretize [0, 3/2, 5/2, 4] [1, 1/2, 1/4, 1/4] 1 = ([0, 2, 4], [1/2, 3/8, 1/8]) := by
@@ -728,6 +742,32 @@ theorem transmission_ignores_old_response (proc : Proc α) (fftK : Fft α) (c : 
     ({ c with last := l } : Tdl α).corrupt proc x = c.corrupt proc x ∧
     ({ c with last := l } : Tdl α).corruptFreq proc fftK x fft sel = c.corruptFreq proc fftK x fft sel :=
   ⟨rfl, corruptFreq_ignores_last proc fftK c l x fft sel⟩
+
+/-- R11 (non-mutating API): a query — any property read, `__repr__`, anything done with a response
+    that was handed out — is the identity on the object; in a history it can be dropped. -/
+theorem query_leaves_state (proc : Proc α) (fftK : Fft α) (c : Su α) (m : Mu α) :
+    c.step proc fftK .query = .ok (c, .unit) ∧ m.step proc fftK .query = .ok (m, .unit) := ⟨rfl, rfl⟩
+
+/-- R8 (constructor path = setter path): an object given its antennas at construction is the object
+    built SISO and configured with `set_num_antennas`; "no path loss" at construction is
+    `set_pathloss(None)`; the direction starts un-switched, i.e. `switched_direction = False`. -/
+theorem constructor_equals_setters (proc : Proc α) (fftK : Fft α) (taps : List (Nat × α)) (a : Option (Nat × Nat))
+    (jakes : Bool) (link : Nat) :
+    let built : Su α := { tdl := Tdl.init taps a jakes link, pl := none }
+    let siso : Su α := { tdl := Tdl.init taps none jakes link, pl := none }
+    siso.step proc fftK (.setAnt a) = .ok (built, .unit) ∧
+    built.step proc fftK (.setPathloss none) = .ok (built, .unit) ∧
+    built.step proc fftK (.setSwitched false) = .ok (built, .unit) := ⟨rfl, rfl, rfl⟩
+
+/-- R8: `MuChannel.set_pathloss(None)` is "no path loss on any link" -/
+theorem mu_clear_pathloss (proc : Proc α) (fftK : Fft α) (m : Mu α) :
+    ∃ m', m.step proc fftK .clearPathloss = .ok (m', .unit) ∧ m'.links.length = m.links.length ∧
+      ∀ l ∈ m'.links, l.pl = none := by
+  refine ⟨_, rfl, by simp, ?_⟩
+  intro l hl
+  simp only [List.mem_map] at hl
+  obtain ⟨l0, _, rfl⟩ := hl
+  rfl
 
 /-- a two-transmission history, end to end on concrete Gaussian-free data (α = ℤ): both
     transmissions succeed and the second one starts where the first one stopped -/
